@@ -54,6 +54,7 @@ type FuncSpec struct {
 	Dispatch   []string // interface method spec: the closed list of implementing types
 	MayPanic   bool
 	TypedPtrs  bool // assume distinct instances of one struct type never overlap
+	WFHeap     bool     // assume that every reference stored in a freshly introduced heap component is allocated
 	Reveal     []string // opaque spec functions whose definition this function's proof may use
 	AllocFresh bool // results are freshly allocated
 	Splits     []*Split
@@ -310,6 +311,8 @@ func ParseFile(path, defaultPkg string) (*File, error) {
 				cur.Pure = true
 			case "nosafety":
 				cur.NoSafety = true
+			case "wfheap":
+				cur.WFHeap = true
 			case "reveal":
 				cur.Reveal = append(cur.Reveal, strings.Fields(strings.ReplaceAll(rest, ",", " "))...)
 			case "typedptrs":
